@@ -468,11 +468,17 @@ def observe_hist(spec, perturb=None, mutate_code=None):
             for i, (cn, _) in enumerate(comps, start=1):
                 index.append((6, (irinfo['comp_names'].index(cn) + 1) if cn in irinfo['comp_names'] else 0, i))
     kparams = []
+    stale_k = []
     if advan in (5, 7):
         for x in nm.assigned(pk):
             mm = re.fullmatch(r'K(\d+)T(\d+)', x) or re.fullmatch(r'K(\d)(\d)', x)
             if mm:
                 i, j = int(mm.group(1)), int(mm.group(2))
+                if not (1 <= i <= ncomp and 0 <= j <= ncomp + 1):
+                    # no such compartment in $MODEL: to PREDPP this is not a rate constant but an ordinary variable
+                    # (pharmpy leaves e.g. 'K30 = CLM/VM' behind when METABOLITE moves from 3 to 2 and defines K20 = K30)
+                    stale_k.append(x)
+                    continue
                 if j == ncomp + 1:
                     j = 0
                 kparams.append((i, j, f'(Sym {names.p(x)})'))
@@ -564,5 +570,5 @@ def observe_hist(spec, perturb=None, mutate_code=None):
         par_a, par_b, ct.boolean(rvs_equal),
         '\n  ' + envterm]) + '))')
     info.update({'ncomp': irinfo['ncomp'], 'index': index, 'n_pk': len(pk), 'n_err': len(err), 'n_des': len(des),
-                 'nflows': len(flows), 'has_f': fterm is not None})
+                 'nflows': len(flows), 'has_f': fterm is not None, 'stale_k': stale_k})
     return term, info
